@@ -269,7 +269,13 @@ func GenInputs(c *Case, r *rand.Rand, limit, kmax, nrandom int) [][]int {
 		} else {
 			s = randomSentence(c, r, 2+r.Intn(6))
 		}
-		if s == nil || len(s) > 80 {
+		// the Earley reference in TLC is cubic in the input length on ambiguous grammars: keep sentences short
+		// unless the grammar is a large one (those are judged by the linear-time table run)
+		maxLen := 30
+		if len(c.Rules) > 45 {
+			maxLen = 80
+		}
+		if s == nil || len(s) > maxLen {
 			continue
 		}
 		in := make([]int, len(s))
